@@ -163,7 +163,25 @@ def A10_descending_contract(repo, clause):
     iterative = False
     for lp in loops:
         lv = lp.target.id if isinstance(lp.target, ast.Name) else None
+        # every deleted index shifts the entries above it, and the indices arrive in DESCENDING order: after a large index that shifts nothing come the smaller ones
+        # that do - there is no index after which the rest can be skipped
+        exit_tests = set()
+        for b_ in [y for y in ast.walk(lp) if isinstance(y, (ast.Break, ast.Return))]:
+            owner_ = next((a_ for a_ in callee.ancestors(b_) if isinstance(a_, (ast.For, ast.While))), None)
+            if owner_ is not lp:
+                continue
+            par_ = callee.parents.get(b_)
+            if isinstance(par_, ast.If):
+                exit_tests.update(id(y) for y in ast.walk(par_.test))
+            obs.append(Ob("A10", clause, callee, par_ if isinstance(par_, ast.If) else b_, False,
+                          "the re-index loop over `%s` is left early (`%s`): the callers pass the deleted indices in DESCENDING order, so the indices that follow are SMALLER and still shift "
+                          "every entry above them - the surviving terms keep stale atom numbers (skipping one index is `continue`)" % (P, ast.unparse(par_ if isinstance(par_, ast.If) else b_)[:60].replace("\n", " ")),
+                          slot="reindex-visits-all", positive="robust"))
+        for c_ in [y for y in ast.walk(lp) if isinstance(y, ast.If) and len(y.body) == 1 and isinstance(y.body[0], ast.Continue)]:
+            exit_tests.update(id(y) for y in ast.walk(c_.test))
         for x in ast.walk(lp):
+            if id(x) in exit_tests:
+                continue
             if isinstance(x, ast.Compare) and len(x.ops) == 1 and lv is not None:
                 names = names_in(x)
                 if lv in names:
@@ -188,7 +206,14 @@ def A10_descending_contract(repo, clause):
     anys = [c for c in calls_in(callee) if call_name(c) in ("any", "all") and any(
         isinstance(x, ast.Compare) and isinstance(x.ops[0], (ast.In, ast.Eq)) for x in ast.walk(c))]
     isin = [c for c in calls_in(callee) if call_name(c) in ("isin", "in1d")]
-    if not anys and not isin:
+    # set form: a term is touched iff its atoms are NOT disjoint from the deleted set
+    disj = [c for c in ast.walk(callee.node) if isinstance(c, ast.Call) and call_name(c) == "isdisjoint" and isinstance(c.func, ast.Attribute)]
+    for c in disj:
+        neg = isinstance(callee.parents.get(c), ast.UnaryOp) and isinstance(callee.parents.get(c).op, ast.Not)
+        obs.append(Ob("A10", clause, callee, c, neg,
+                      "a term is dropped when its atoms are %s the deleted set (`%s`)" % ("NOT disjoint from" if neg else "DISJOINT from", ast.unparse(callee.parents.get(c) if neg else c)[:50]),
+                      slot="drop-quantifier", positive="robust" if not neg else False))
+    if not anys and not isin and not disj:
         obs.append(Ob("A10", clause, callee, callee.node, False, "membership test of term atoms against the deleted set not found", construct="def %s" % callee.name,
                       slot="membership-shape", undecided=True))
         return obs
@@ -930,10 +955,30 @@ def A17_mass_guess(repo, clause):
                 nearest.append((f, n))
             if isinstance(n, ast.For) and "ATOMIC_MASSES" in ast.unparse(n.iter):
                 scan_loops.append((f, n))
+    # vectorised first hit: argmax / nonzero()[0] / flatnonzero()[0] over the boolean matrix `abs(table - mass) < tolerance` picks the FIRST entry within tolerance
+    mask_first = []
+    for f in [outer] + [c for c in cands if c is not outer]:
+        for n in f.own_nodes():
+            if isinstance(n, ast.Call) and call_name(n) == "argmax" and not nearest:
+                recv = n.func.value if isinstance(n.func, ast.Attribute) and not (isinstance(n.func.value, ast.Name) and n.func.value.id in ("np", "numpy")) else (n.args[0] if n.args else None)
+                if recv is None:
+                    continue
+                try:
+                    rv = expand(f, recv)
+                except Exception:
+                    rv = recv
+                if isinstance(rv, ast.Compare) and any(isinstance(x, ast.Name) and x.id == tolname for x in ast.walk(rv)):
+                    mask_first.append((f, n, rv))
+    for f, n, rv in mask_first:
+        obs.append(Ob("A17", clause, f, n, False,
+                      "`%s` takes the position of the first True of the boolean matrix `%s`: the FIRST table entry within the tolerance, not the nearest one "
+                      "(two entries can both be within tolerance)" % (ast.unparse(n)[:40], ast.unparse(rv)[:50]), slot="nearest", positive="robust"))
     for f, n in first_hit:
         obs.append(Ob("A17", clause, f, n, False,
                       "the scan returns the first table entry that passes the tolerance test, not the nearest one "
                       "(two entries can both be within tolerance)", slot="nearest", positive=True))
+    if mask_first and not first_hit:
+        first_hit = [(f, n) for f, n, rv in mask_first]
     if not first_hit:
         best_loop = None
         for f, lp in scan_loops:
